@@ -19,11 +19,37 @@ from sa.engine import Model  # noqa: E402
 from sa.report import Ctx, finish  # noqa: E402
 
 
+KNOWN_SQL_OWNERS = ("Mailbox", "AppNamespace", "Server", "WebSocketServer")
+
+
+def require_known_sql_owners(model):
+    """The rules attribute every channel / usage statement of a runtime path to
+    the namespace, mailbox or server object that runs it.  A statement run by
+    an object of another class of the package (a store / recorder class split
+    off from them) carries its own copies of the app id and the handles, which
+    the scoping and plumbing rules do not follow: no verdict rather than a
+    wrong one."""
+    done = getattr(model, "_sql_owners_checked", False)
+    if done:
+        return
+    from sa.events import each_event
+    for _p, e, _l in each_event(model, model.runtime_entries(), ("sql",)):
+        cls = e["func"].split(".")[0] if "." in e["func"] else None
+        if cls is None or cls in KNOWN_SQL_OWNERS:
+            continue
+        if cls in model.repo.classes:
+            raise AnalysisError("statement executed by a collaborator class %s (%s at %s:%d): "
+                                "not modelled" % (cls, e["func"], e["site"][0], e["site"][1]))
+    model._sql_owners_checked = True
+
+
 def run_property(prop, tier, model=None, quiet=False):
     mod = importlib.import_module("sa.rules.%s" % prop.lower())
     model = model or Model()
     ctx = Ctx(model, prop, tier)
     try:
+        if prop not in ("C19", "C20"):
+            require_known_sql_owners(model)
         mod.run(ctx)
     except AnalysisError as e:
         if isinstance(e, PlumbingViolation):
